@@ -27,6 +27,10 @@ pub struct Cfg {
     /// and the clock advanced by one tick (objects in the middle of / between transfers)
     #[serde(default)]
     pub prefix: u8,
+    /// the second object is sent under Reed-Solomon GF(2^8) with one repair symbol per block (a transfer then has
+    /// more packets than source symbols: the lifecycle must not depend on the scheme)
+    #[serde(default)]
+    pub fec: bool,
 }
 
 pub const TICK: u64 = 500;
@@ -50,6 +54,9 @@ pub fn catalog(c: &Cfg) -> Vec<ObjSpec> {
     let mut o1 = ObjSpec::simple(6, 2);
     o1.oti = Some(OtiSpec::new(Scheme::NoCode, 4, 2, 0, true));
     o1.count = 2;
+    if c.fec {
+        o1.oti = Some(OtiSpec::new(Scheme::Rs28, 4, 2, 1, true));
+    }
     // an explicit refusal of the immediate stop must behave like the default
     o1.immediate_stop = Some(false);
     vec![o0, o1]
@@ -98,7 +105,15 @@ pub struct Mon12 {
 pub fn monitor(log: &[Item], cat: &[ObjSpec], toi_of: &[Option<u128>], full_fdt: bool) -> Mon12 {
     let mut m = Mon12 { o: vec![ObjM::default(); cat.len()], ..Default::default() };
     let k_of = |t: u128| toi_of.iter().position(|x| *x == Some(t));
-    let per_transfer: Vec<u32> = cat.iter().map(|o| (o.len as u32).div_ceil(o.oti.as_ref().unwrap().e as u32).max(1)).collect();
+    // packets per transfer: source symbols plus the repair symbols of every block
+    let per_transfer: Vec<u32> = cat
+        .iter()
+        .map(|o| {
+            let oti = o.oti.as_ref().unwrap();
+            let src = (o.len as u32).div_ceil(oti.e as u32);
+            (src + oti.parity as u32 * src.div_ceil((oti.b as u32).max(1))).max(1)
+        })
+        .collect();
     let mut viol = |m: &mut Mon12, k: &str, w: String| {
         if m.violation.is_none() {
             m.violation = Some((k.to_string(), w));
@@ -422,21 +437,24 @@ pub fn configs(thorough: bool) -> Vec<Cfg> {
                     if !thorough && ((count == 3 && carousel != 0) || (!full_fdt && (count != 2 || immediate_stop))) {
                         continue;
                     }
-                    v.push(Cfg { count, carousel, immediate_stop, full_fdt, multiplex: 1, stream: false, prefix: 0 });
+                    v.push(Cfg { count, carousel, immediate_stop, full_fdt, multiplex: 1, stream: false, prefix: 0, fec: false });
+                    if count == 2 && carousel <= 1 && !immediate_stop && full_fdt {
+                        v.push(Cfg { count, carousel, immediate_stop, full_fdt, multiplex: 1, stream: false, prefix: 1, fec: true });
+                    }
                     if count == 2 && carousel <= 1 && !immediate_stop {
                         for prefix in [1u8, 2] {
-                            v.push(Cfg { count, carousel, immediate_stop, full_fdt, multiplex: 1, stream: false, prefix });
+                            v.push(Cfg { count, carousel, immediate_stop, full_fdt, multiplex: 1, stream: false, prefix, fec: false });
                         }
                     }
                     if (count >= 2 || carousel != 0) && !immediate_stop && full_fdt {
-                        v.push(Cfg { count, carousel, immediate_stop, full_fdt, multiplex: 1, stream: true, prefix: 0 });
+                        v.push(Cfg { count, carousel, immediate_stop, full_fdt, multiplex: 1, stream: true, prefix: 0, fec: false });
                     }
                     if count == 1 && !immediate_stop && carousel != 0 {
                         // zero carousel periods: at a fixed instant the reads must still terminate
-                        v.push(Cfg { count, carousel: carousel + 2, immediate_stop, full_fdt, multiplex: 1, stream: false, prefix: 0 });
+                        v.push(Cfg { count, carousel: carousel + 2, immediate_stop, full_fdt, multiplex: 1, stream: false, prefix: 0, fec: false });
                     }
                     if count == 2 && (thorough || carousel != 2) {
-                        v.push(Cfg { count, carousel, immediate_stop, full_fdt, multiplex: 2, stream: false, prefix: 0 });
+                        v.push(Cfg { count, carousel, immediate_stop, full_fdt, multiplex: 2, stream: false, prefix: 0, fec: false });
                     }
                 }
             }
